@@ -308,6 +308,17 @@ struct world
     out *o = nullptr;
     bool in_exec = false;
     bool fires_seen = false; // an exec has happened in this case
+    // ---- what the property leaves open: the order among timers with EQUAL deadlines (see tie_step) ----
+    bool tainted = false; // the outcome of this case depends on the order inside a tie: result = "tie-dependent" until the next reset
+    bool tdirty = false;  // a setter op hit a planned timer / an exec used setters in callbacks: the list may be unsorted
+    struct tiegrp
+    {
+        bool open = false;
+        i64 d = 0;
+        std::set<int> G, fired;
+        int k0 = 0;
+        bool all1 = true, all2 = true;
+    } tg;
 };
 static world W;
 static void ofail(const std::string &why)
@@ -338,6 +349,98 @@ static void ref_unarmed(i64 bound, bool inclusive)
     }
 }
 
+// ---------------------------------------------------------------------------
+// The property orders callbacks by deadline and says nothing about timers with EQUAL deadlines.  The result line
+// prints every maximal run of callbacks with one deadline sorted by timer id (canon_fires), and tie_step decides -
+// with the same rules as the model driver (lean/IgrisModel/C16/Tie.lean) - whether the OUTCOME of this exec may
+// depend on the order inside a tie (the callbacks act on timers of the tie, or act differently depending on which
+// member runs at which index).  Such a case is compared by the oracle only from there on: the reference scheduler
+// follows the order it observes.  Only the public API is used (is_planned(), finish()).
+// ---------------------------------------------------------------------------
+static bool act_eq(const act &a, const act &b) { return a.kind == b.kind && a.j == b.j && a.s == b.s && a.iv == b.iv; }
+static bool acts_eq(const std::vector<act> &a, const std::vector<act> &b)
+{
+    if (a.size() != b.size()) return false;
+    for (size_t i = 0; i < a.size(); i++)
+        if (!act_eq(a[i], b[i])) return false;
+    return true;
+}
+static std::vector<act> acts_for(int id, int k)
+{
+    std::vector<act> v;
+    if (id == W.unarmed) return v;
+    for (auto &r : W.rules)
+    {
+        if ((r.id != -1 && r.id != id) || (r.k != -1 && r.k != k)) continue;
+        for (auto &a : r.acts) v.push_back(a);
+    }
+    return v;
+}
+static bool any_tie()
+{
+    iface &t = *W.t;
+    std::set<i64> seen;
+    for (size_t i = 0; i < t.n(); i++)
+        if (t.is_planned((int)i) && !seen.insert(t.finish((int)i)).second) return true;
+    return false;
+}
+static void tie_step(int id, i64 raw, i64 d, int myk, i64 now)
+{
+    world &w = W;
+    iface &t = *w.t;
+    auto &g = w.tg;
+    if (w.tainted) return;
+    if (w.tdirty && any_tie()) { w.tainted = true; return; }
+    if (g.open && raw != g.d) { w.tainted = true; return; } // a timer with another deadline runs before every member of the tie has run
+    std::set<int> S;
+    for (size_t i = 0; i < t.n(); i++)
+        if (t.is_planned((int)i) && t.finish((int)i) == raw) S.insert((int)i);
+    S.insert(id);
+    // the timer with the unarmed delegate runs unseen: it belongs to the tie when the reference has it at this deadline
+    if (w.unarmed >= 0 && w.ref.pending(w.unarmed) && w.ref.pend[w.unarmed].first == d) S.insert(w.unarmed);
+    if (g.open) g.G.insert(S.begin(), S.end());
+    else if (S.size() >= 2)
+    {
+        g = world::tiegrp();
+        g.open = true;
+        g.d = raw;
+        g.G = S;
+        g.k0 = myk;
+    }
+    if (!g.open) return;
+    if (w.unarmed >= 0 && g.G.count(w.unarmed)) g.fired.insert(w.unarmed);
+    bool p1 = true, p2 = true;
+    std::vector<act> first = acts_for(*g.G.begin(), myk);
+    for (int m : g.G)
+    {
+        std::vector<act> L = acts_for(m, myk);
+        if (!acts_eq(L, first)) p1 = false;
+        if (!acts_eq(L, acts_for(m, g.k0))) p2 = false;
+        for (auto &a : L)
+        {
+            if (a.kind != 'x' && g.G.count(a.j)) p1 = false;
+            bool safe = a.kind == 'x' || (a.kind == 'u' && a.j == m) || (a.kind == 'p' && a.j == m && a.s + a.iv > now);
+            if (!safe) p2 = false;
+        }
+    }
+    g.all1 = g.all1 && p1;
+    g.all2 = g.all2 && p2;
+    g.fired.insert(id);
+    if (!g.all1 && !g.all2) { w.tainted = true; return; }
+    if (g.fired == g.G) g.open = false;
+}
+static void canon_fires(std::vector<std::pair<int, i64>> &f)
+{
+    size_t b = 0;
+    while (b < f.size())
+    {
+        size_t e = b + 1;
+        while (e < f.size() && f[e].second == f[b].second) e++;
+        if (e - b > 1) std::sort(f.begin() + b, f.begin() + e, [](const std::pair<int, i64> &x, const std::pair<int, i64> &y) { return x.first < y.first; });
+        b = e;
+    }
+}
+
 static void on_fire(int id)
 {
     world &w = W;
@@ -350,6 +453,7 @@ static void on_fire(int id)
     i64 d = t.virt(raw, c.now);
     ref_unarmed(d, false);
     if (w.fires.size() < 100000) w.fires.push_back({id, raw});
+    if (w.stack.size() == 1) tie_step(id, raw, d, myk, c.now);
     // ---- oracle, on the real callback ----
     if (syslock_counter() != 0) ofail("callback runs with the system lock held");
     if (!t.is_planned(id)) ofail("callback of a timer that is not planned");
@@ -484,6 +588,9 @@ static void drop_world()
     W.oracle_on = true;
     W.unarmed = -1;
     W.dirty = false;
+    W.tainted = false;
+    W.tdirty = false;
+    W.tg = world::tiegrp();
     W.last_fire.clear();
     W.anch.clear();
     W.stack.clear();
@@ -815,7 +922,40 @@ static std::string consts_line()
     return s;
 }
 
-static void run_op(const std::vector<std::string> &w, const std::string &, hv::out &o_)
+static const std::set<std::string> mgr_ops = {"plan", "plan1", "unplan", "sets", "seti", "replan", "destroy", "dropmgr", "qmin", "q", "exec"};
+static void run_op_inner(const std::vector<std::string> &w, const std::string &, hv::out &o_);
+static void run_op(const std::vector<std::string> &w, const std::string &line, hv::out &o_)
+{
+    const std::string &op = w[0];
+    bool mgr = mgr_ops.count(op) && W.t && !D_MODE;
+    bool tie_before = false;
+    if (mgr)
+    {
+        tie_before = any_tie();
+        if ((op == "sets" || op == "seti") && w.size() > 1)
+        {
+            int i = atoi(w[1].c_str());
+            if (i >= 0 && i < (int)W.t->n() && W.t->is_planned(i)) W.tdirty = true;
+        }
+        if (op == "exec" && w.size() > 2)
+            for (auto &r : parse_rules(w[2]))
+                for (auto &a : r.acts)
+                    if (a.kind == 's' || a.kind == 'i') W.tdirty = true;
+    }
+    run_op_inner(w, line, o_);
+    if (mgr && W.t)
+    {
+        if (W.tdirty && (tie_before || any_tie())) W.tainted = true;
+        if (W.tainted)
+        {
+            // the order among equal deadlines (left open by the property) decides what happens from here on:
+            // nothing is compared with the model until the next reset; the oracle keeps judging every op
+            o_.result = "tie-dependent";
+            out(o_).tag("tie-order-dependent");
+        }
+    }
+}
+static void run_op_inner(const std::vector<std::string> &w, const std::string &, hv::out &o_)
 {
     out o(o_);
     world &W_ = W;
@@ -878,7 +1018,6 @@ static void run_op(const std::vector<std::string> &w, const std::string &, hv::o
         o.tag("before-main");
         return;
     }
-    static const std::set<std::string> mgr_ops = {"plan", "plan1", "unplan", "sets", "seti", "replan", "destroy", "dropmgr", "qmin", "q", "exec"};
     if (mgr_ops.count(op) && !W_.t)
     {
         o.result = "bad-op";
@@ -1017,12 +1156,15 @@ static void run_op(const std::vector<std::string> &w, const std::string &, hv::o
             for (auto &p : before)
                 if (T.raw_time(p.second.first) < T.raw_time(p.second.first - p.second.second)) { o.tag("deadline-beyond-wrap"); break; }
         }
+        W_.tg = world::tiegrp();
         W_.in_exec = true;
         T.exec(now);
         W_.in_exec = false;
         W_.stack.clear();
         ref_unarmed(now, true);
         std::string f;
+        // (the oracle below reads W_.fires per timer only: sorting inside runs of one deadline does not change what it sees)
+        canon_fires(W_.fires);
         for (auto &x : W_.fires)
         {
             if (!f.empty()) f += ",";
